@@ -29,11 +29,11 @@ static std::vector<std::string> g_samples;
 static const int REGIONS = 3;
 static const char* const LEGEND =
 	"a<region>:<label> append | r<region>:<i>[+<j>..] remove the i-th (j-th..) visited task(s) while iterating the "
-	"region's plan to its end | c<region> clear; regions 0=R(root) 1=A 2=B";
+	"region's plan to its end | c<region> clear | x0 the library's whole-storage reset PlanData::clear() (what exit() and load() do); regions 0=R(root) 1=A 2=B";
 
 // ---- ops ---------------------------------------------------------------------------------------------
 
-struct Op { char kind; int region; int arg; };  // 'a' arg=label | 'r' arg=bit mask of visited positions | 'c'
+struct Op { char kind; int region; int arg; };  // 'a' arg=label | 'r' arg=bit mask of visited positions | 'x' whole-storage reset | 'c'
 
 static std::string opStr(const Op& o) {
 	std::string s(1, o.kind);
@@ -340,6 +340,10 @@ struct W {
 				if (!(op.arg >> i & 1)) kept.push_back(old[i]);
 			ref[op.region] = kept;
 			if (check) ok = sameList(visited, trunc, old, "plan/remove-visit", "iteration with remove()", op.region, h) && ok;
+		} else if (op.kind == 'x') {
+			opName = "reset";
+			m._core.planData.clear();
+			for (RList& l : ref) l.clear();
 		} else {
 			opName = "clear";
 			p.clear();
@@ -371,6 +375,7 @@ struct W {
 					if (mask & (mask - 1)) mn.push_back(Op{'r', r, mask});
 		}
 		for (int r = 0; r < REGIONS; ++r) mn.push_back(Op{'c', r, 0});
+		mn.push_back(Op{'x', 0, 0});
 		return mn;
 	}
 
@@ -454,9 +459,9 @@ struct W {
 };
 
 static bool parseOp(const std::string& t, Op& op) {
-	if (t.size() < 2 || (t[0] != 'a' && t[0] != 'r' && t[0] != 'c') || t[1] < '0' || t[1] > '9') return false;
+	if (t.size() < 2 || (t[0] != 'a' && t[0] != 'r' && t[0] != 'c' && t[0] != 'x') || t[1] < '0' || t[1] > '9') return false;
 	op = Op{t[0], t[1] - '0', 0};
-	if (t[0] == 'c') return t.size() == 2;
+	if (t[0] == 'c' || t[0] == 'x') return t.size() == 2;
 	if (t.size() < 4 || t[2] != ':') return false;
 	for (size_t i = 3; i < t.size(); ++i) {
 		if (t[i] == '+') continue;
